@@ -152,7 +152,7 @@ def gen_pairs(ctx, rng, count, ref=None):
     out = []
     templates = ["hand_made.mpd", "manifest_a.mpd", "manifest_n.mpd", "hand_made.mpd"]
     for i in range(count):
-        stream = ["bbb", "tears", "syn1", "syn2", "syn3", "syn4"][i % 6]
+        stream = ["bbb", "tears", "syn1", "syn2", "syn3", "syn4", "syn5"][i % 7]
         man = templates[(i // 5) % 4]
         depth = rng.choice([20, 40, 60, 120])
         opts = {"timeline": "1", "depth": str(depth)}
@@ -252,7 +252,7 @@ def ch_pair(ctx) -> Channel:
     plines, precs = [], []
     with appboot.Clock("2023-01-01T00:00:00Z") as clock:
         ref = {}
-        for st_ in ("bbb", "tears", "syn1", "syn2", "syn3", "syn4"):
+        for st_ in ("bbb", "tears", "syn1", "syn2", "syn3", "syn4", "syn5"):
             t0 = next(iter(segchecks.tracks(app, st_).values()))
             ref[st_] = t0.ref_dur / t0.ref_ts
         for stream, url, t1, t2, kind, opts, defaults in gen_pairs(ctx, rng, ctx.scale(48, 2000), ref):
@@ -350,7 +350,7 @@ def ch_pair(ctx) -> Channel:
             if overlap:
                 ch.nontrivial.add((url, case["t1"], case["t2"]))
             ch.sample(case, limit=3)
-    for st_ in ("bbb", "tears", "syn1", "syn2", "syn3", "syn4"):
+    for st_ in ("bbb", "tears", "syn1", "syn2", "syn3", "syn4", "syn5"):
         set_stream_defaults(app, st_, None)
     for (case, impl_p), mo in zip(precs, _driver(ch, plines)):
         ch.count("patch_model_compared")
@@ -397,7 +397,7 @@ def search(ctx, disagreements):
     import types
     c2 = types.SimpleNamespace(tier="thorough", thorough=True, seed=ctx.seed + 32452843,
                                rng=lambda name: common.rng_for(ctx.seed + 32452843, name),
-                               scale=lambda q, t: t)
+                               scale=lambda q, t: t if ctx.thorough else max(q, t // 5))
     ch = ch_pair(c2)
     return ch.oracle_failures[0] if ch.oracle_failures else None
 
